@@ -309,7 +309,8 @@ def bosonic_nongauss_spec(rng, n):
         c = rng.choice(["Catstate", "Fock", "none", "none"])
         if c == "Catstate":     # any parity phase (p = 0.5: Yurke-Stoler), any phase of alpha
             ops.append(dict(cls="Catstate", regs=[m], pars=[round(rng.uniform(0.5, 1.5), 2), rng.choice([0.0, 0.0, sim.angle(rng)]),
-                                                            rng.choice([0, 1, 0.5, 0.25, 1.5])], kw=dict()))
+                                                            rng.choice([0, 1, 0.5, 0.25, 1.5])],
+                            kw=dict(representation=rng.choice(["complex", "complex", "real"]))))
         elif c == "Fock":
             ops.append(dict(cls="Fock", regs=[m], pars=[rng.choice([1, 2])]))
     for _ in range(rng.randint(1, 5)):
